@@ -415,6 +415,15 @@ def fs_requests(c):
     return [FileStoreRequestTlv(action_code=FilestoreActionCode.CREATE_FILE_SNM, first_file_name="out/extra.bin")]
 
 
+def eff_mode(c) -> str:
+    """The transmission mode a put request built from ``c`` asks for: the request-level value if given, else the MIB default."""
+    return c["req_mode"] if c["req_mode"] in ("ack", "unack") else c["mode"]
+
+
+def eff_closure(c) -> bool:
+    return c["req_closure"] if isinstance(c["req_closure"], bool) else c["closure"]
+
+
 def put_request(c) -> PutRequest:
     rm = {"same": None, "none": None, "ack": TransmissionMode.ACKNOWLEDGED, "unack": TransmissionMode.UNACKNOWLEDGED}[c["req_mode"]]
     rc = {"same": None, "none": None, True: True, False: False}[c["req_closure"]]
@@ -450,6 +459,7 @@ class Entity:
         self.role = role  # 'src' | 'dst'
         self.closed: list = []  # transaction ids this entity has finished (sorted)
         self.autodrain = True  # False: PDUs stay queued until get_one() (partial draining, C10)
+        self.drain_anomaly = None
 
     # ---- bookkeeping ---------------------------------------------------------------------------
     def active_tid(self):
@@ -467,12 +477,29 @@ class Entity:
                 self.closed = sorted(self.closed + [rec_tid])
 
     def drain(self) -> list:
+        """The retrieval loop of the library's own examples (``while num_packets_ready > 0: get_next_packet()``,
+        asserting that a packet comes back).  ``self.drain_anomaly`` describes what that loop would have got wrong:
+        a counter that announces more PDUs than are queued (the examples' assertion fails) or fewer (PDUs are left
+        behind).  Left-behind PDUs are retrieved all the same so that the exploration goes on as before."""
         out = []
+        self.drain_anomaly = None
+        announced = self.h.states.num_packets_ready
+        while self.h.states.num_packets_ready > 0:
+            holder = self.h.get_next_packet()
+            if holder is None:
+                self.drain_anomaly = f"num_packets_ready announced {announced} PDUs but only {len(out)} were queued"
+                break
+            out.append(Msg(holder.pdu))
+        n = len(out)
         while True:
             holder = self.h.get_next_packet()
             if holder is None:
                 break
             out.append(Msg(holder.pdu))
+        if len(out) > n and self.drain_anomaly is None:
+            self.drain_anomaly = f"num_packets_ready announced {announced} PDUs but {len(out)} were queued"
+        if self.drain_anomaly is None and self.h.states.num_packets_ready != 0:
+            self.drain_anomaly = f"num_packets_ready is {self.h.states.num_packets_ready} with an empty queue"
         return out
 
     def get_one(self):
@@ -489,6 +516,9 @@ class Entity:
         except Exception as ex:  # noqa: BLE001
             obs["exc"] = exc_desc(ex)
         msgs = self.drain() if self.autodrain else []
+        if self.autodrain and self.drain_anomaly and "exc" not in obs:
+            # what a driver written like the library's examples experiences: its retrieval loop fails
+            obs["exc"] = {"exc": "PacketCounterMismatch", "site": "states.num_packets_ready", "protocol": False, "msg": self.drain_anomaly}
         inds = self.user.take()
         flts = self.faults.take()
         ended = [r["tid"] for r in inds if r["ind"] == "finished"]
